@@ -7,6 +7,7 @@ id="$1"; src="$2"; mode="${3:-plain}"
 wt="/tmp/cf_$id"
 /verif/tools/mkworktree.sh "$wt" >/dev/null 2>&1
 cd "$wt" || exit 2
+mkdir -p "$wt/mutant/tmp"
 build_demo() {
   if [ "$mode" = asan ]; then
     gcc -g -fsanitize=address -I src -I . -DHAVE_CONFIG_H '-DLOCALEDIR="/usr/local/share/locale"' "$src/demo.c" src/confuse.c src/lexer.c -o /tmp/cf_demo_$id 2>/tmp/cf_build_$id.log
